@@ -284,13 +284,17 @@ func (k *Keys) ReadKey() (key rune, isAbort bool) {
 		var buf []byte
 
 		for len(buf) == 0 {
-			var err error
-
 			// The input stream ended or failed: abort the command reading the key.
-			buf, err = k.readInputFiltered()
+			read, err := k.readInputFiltered()
 			if err != nil {
 				return inputrc.Esc, true
 			}
+
+			// Those keys are prepared like the ones read by the main loop,
+			// so that the key we get does not depend on which of the two
+			// has read it: a multibyte character cut by the end of a read
+			// is waited for, Meta characters are converted if required.
+			buf = k.convertInput(read)
 		}
 
 		// Only the first key is ours: the ones read
